@@ -429,7 +429,9 @@ pub fn relative<T: AsRef<Path>, U: AsRef<Path>>(path: T, base: U) -> RvResult<Pa
         }
         return Ok(comps.iter().collect::<PathBuf>());
     }
-    Ok(path.to_owned())
+
+    // Navigating from a directory to itself is the current directory, never an absolute path
+    Ok(PathBuf::from("."))
 }
 
 /// Returns a new [`PathBuf`] with the file extension trimmed off.
